@@ -111,10 +111,15 @@ def check_case(ctx, model, rows):
                 ctx.violation(key, case, "row %d conforms but the writer refused it" % (index + 1), expected="written", observed=outcome)
                 return
             grown = after[len(before):] if after.startswith(before) else None
-            if grown is None or grown not in encode(model, row):
+            acceptable = encode(model, row)
+            if model.kind == "delimited":
+                # the line ending of delimited output is not fixed by the statement: any of the three is fine
+                body = acceptable[0][:-2]
+                acceptable = [body + d for d in ("\r\n", "\n", "\r")]
+            if grown is None or grown not in acceptable:
                 ctx.case(case, True)
                 ctx.violation("C14:emitted-text", case, "the text emitted for row %d is not the encoding of the row" % (index + 1),
-                              expected=encode(model, row), observed=grown if grown is not None else after)
+                              expected=acceptable, observed=grown if grown is not None else after)
                 return
             written.append(row)
             n_written += 1
